@@ -614,6 +614,31 @@ theorem setGlobal_reentrant_raises (classes : List ClassDef) (nc : Bool) (cfg : 
     | ok g' =>
       exact setGlobal_reentrant hi.good.conf.good hK hP hKp hKd hPp hPd hkeys hKs hPs hnew hit g' h2
 
+/-- **Sub-palettes of a compound palette are palettes of the current state.** `P_k(conf, nc).get_sub_palette(P_j)`
+— the compound palette obtained from the configuration now, then the palette of class `j` it hands out — maps
+every accessor of `j` to what `get_color` answers in the state right after the call, whatever was handed out
+before (to this or any other configuration) and whatever was registered in between. -/
+theorem sub_palette_fresh (classes : List ClassDef) (nc : Bool) (cfg : Cfg) (ops : List GOp) (g g1 g2 : GWorld)
+    (h : runAll classes nc cfg ops = .ok g) (k j : Nat) (pnc : Bool) (s0 s : Snap)
+    (hk : getPaletteG classes g k pnc = .ok (g1, s0)) (hj : getPaletteG classes g1 j pnc = .ok (g2, s)) :
+    ∃ cd, classes[j]? = some cd ∧
+      s = (if pnc then plainSnap cd.accessors else snapOf g2.w.conf cd.accessors) ∧
+      ∀ a ∈ cd.accessors, SpecColor nc (descOf g2.w.conf.map) a.2 (getColor g2.w.conf a.2) := by
+  unfold runAll at h
+  cases h1 : newConf nc cfg with
+  | error err => simp [h1] at h
+  | ok c =>
+    simp only [h1] at h
+    obtain ⟨hgc, hnc, _⟩ := newConf_good (classes := classes) h1
+    have hi0 : GInv classes ⟨⟨c, []⟩, false, []⟩ :=
+      ⟨⟨hgc, fun k s hk => by simp [cacheGet] at hk⟩, fun hf => by cases hf⟩
+    obtain ⟨hi, hl0⟩ := runG_inv ops _ g hi0 h
+    obtain ⟨hi1, hl1, _, _⟩ := getPaletteG_spec hi hk
+    obtain ⟨hi2, hl2, _, cd, hcd, hs⟩ := getPaletteG_spec hi1 hj
+    refine ⟨cd, hcd, hs, fun a _ => ?_⟩
+    have := getColor_spec hi2.good.conf.good a.2
+    rwa [hl2.nc, hl1.nc, hl0.nc, hnc] at this
+
 /-! ### several configurations taking turns as the global one
 
 `runM` is what the driver executes: configurations are created (`new`), operated on (`on i`), made the global
@@ -799,5 +824,15 @@ example : syncedOfM (runM pendClasses ⟨[], [], none, []⟩ (twoOps.take 4)) 0 
     some [(['x'], "DEMO.X".toList, Char.ofNat 27 :: "[31m".toList)] := by decide +kernel
 example : syncedOfM (runM pendClasses ⟨[], [], none, []⟩ twoOps) 0 =
     some [(['x'], "DEMO.X".toList, Char.ofNat 27 :: "[34;1m".toList)] := by decide +kernel
+
+/-- the blank spelling is the same description: the parser strips colour tokens, rgb components and listed
+modifiers (seed m12's shapes, evaluated) -/
+example : parseInitStr "RED :bold".toList = parseInitStr "RED:bold".toList ∧
+    parseInitStr " GREEN".toList = parseInitStr "GREEN".toList ∧
+    parseInitStr "P: CYAN".toList = parseInitStr "P:CYAN".toList ∧
+    parseInitStr "P: - :no_bold".toList = parseInitStr "P:-:no_bold".toList ∧
+    parseInitStr "( 1, 2, 3 ) / g4 :crossed , blink".toList = parseInitStr "(1,2,3)/g4:crossed,blink".toList ∧
+    parseInitStr "RED :bold".toList = .ok ⟨none, .col (.named "RED".toList), .unspec, [("bold".toList, true)]⟩ := by
+  decide +kernel
 
 end C14
